@@ -167,12 +167,14 @@ static RunSpec derive_spec(const std::string& world, int variant, uint64_t run_s
   static const int masks[] = {MASK_ALL, MASK_ALL, MASK_NONE, MASK_FMA, MASK_AVX2};
   if (world == "c16") {
     s.maskA = variant == 0 ? MASK_ALL : masks[rc.below(5)];
+    g.adjacent_slots = variant == 1;
     g.module_ops = true;
     g.zero_sizes = true;
     g.min_calls = 6;
     g.max_calls = 40;
   } else if (world == "c18") {
     s.maskA = masks[rc.below(5)];
+    g.adjacent_slots = true;
     g.module_ops = true;
     g.table_ops = true;
     g.q120 = true;
@@ -194,6 +196,7 @@ static RunSpec derive_spec(const std::string& world, int variant, uint64_t run_s
     g.max_log2n = 7;
   } else if (world == "c11") {
     s.maskA = masks[rc.below(5)];
+    g.adjacent_slots = true;
     g.module_ops = true;
     g.table_ops = true;
     g.simple_ops = true;
@@ -298,6 +301,7 @@ static void add_exec_stats(Json& st, const Exec& e) {
   add("life_windows", e.n_life);
   add("fresh_twins", e.n_twin);
   add("model_coeffs_checked", e.n_model_checks);
+  add("adjacent_buffers", e.n_adjacent);
   static const char* fn[] = {"fill_zero", "fill_ff", "fill_qnan", "fill_snan", "fill_random", "fill_a5"};
   for (int i = 0; i < SIM_FILL_NKINDS; ++i) add(fn[i], e.n_prefill[i]);
   for (int i = 0; i < 8; ++i) add((std::string("off") + std::to_string(i * 8)).c_str(), e.n_off[i]);
